@@ -10,10 +10,14 @@
    All theorems of the first part are parametric in the id comparison eqv.  They assume that eqv is symmetric
    and transitive ON THE IDS THAT OCCUR (D); reflexivity is needed only for "exactly once".
    For the code's comparison (ideq a b = IRI.Equals(a, b, false) as modelled in Model/IriEq.v) reflexivity and
-   symmetry are theorems (C14); TRANSITIVITY of iri_eqb IS NOT PROVED in the framework yet, so the
-   instantiated theorems C10_code_* take it as a hypothesis in the decidable form
-        trans_on ideq (ids in scan order) = true,
-   a boolean the correspondence check evaluates for every generated case.
+   symmetry are theorems on all strings (C14).  TRANSITIVITY is a theorem on the domain of C14
+   (C14_trans): section 5b below states the instantiated theorems with the DOMAIN PREDICATE ON THE ADDRESSEE IDS
+        forallb iri_dom (ids in scan order) = true
+   (Model/IriNf.v: every id is an absolute URL of the grammar of Model/Url.v - scheme "://" host[:port] path
+   ?query #fragment over the stated alphabets, no percent-escapes - whose query string holds no upper-case
+   letter), and C10_trans_on_domain discharges the older hypothesis  trans_on ideq (ids) = true  from it.
+   The theorems C10_code_result / C10_code_value of section 5 keep that hypothesis in its decidable form, for
+   ids outside the domain; the correspondence check evaluates both booleans on the id pool of every run.
 
    Domain: an "addressee" is an entry with an id (IRI, link, object/actor - Appendix A of DESIGN.md); entries
    without one (everything IsNil reports as nil: untyped nil, typed nil pointers, empty and "-" IRIs; nested
@@ -23,8 +27,8 @@
    id, collapsed to one and the empty IRI was returned: C16_idless_dropped_pinned_refuted); the native oracle
    of C10 does not judge them, C16's does.
    ItemCollection.Recipients() (a list of values) is NOT modelled. *)
-From AP.Model Require Import Prelude Vocab Pred IriEq Recip.
-From AP.Proofs Require Import IriEqP RecipP.
+From AP.Model Require Import Prelude Vocab Pred IriEq IriNf Recip.
+From AP.Proofs Require Import IriEqP RecipP RecipNfP.
 
 (* ---- 1. the literal index-collecting, reverse-deleting loop refines the specification ---- *)
 Theorem C10_dedup_refines : forall (eqv : bytes -> bytes -> bool) (D : bytes -> Prop),
@@ -142,6 +146,43 @@ Proof. exact recipients_m_addressing. Qed.
 Theorem C10_code_refl_sym : (forall a, ideq a a = true) /\ (forall a b, ideq a b = ideq b a).
 Proof. exact (conj ideq_refl ideq_sym). Qed.
 
+(* ---- 5b. the hypothesis discharged on the domain of C14 (Proofs/RecipNfP.v over Proofs/IriNfP.v) ---- *)
+Theorem C10_trans_on_domain : forall l, forallb iri_dom l = true -> trans_on ideq l = true.
+Proof. exact trans_on_dom. Qed.
+
+Theorem C10_code_equivalence_domain :
+  (forall a, ideq a a = true) /\ (forall a b, ideq a b = ideq b a) /\
+  (forall a b c, iri_dom a = true -> iri_dom b = true -> iri_dom c = true ->
+                 ideq a b = true -> ideq b c = true -> ideq a c = true) /\
+  (forall a b, iri_dom a = true -> iri_dom b = true -> ideq a b = nf_eqb (nf false a) (nf false b)).
+Proof. exact (conj ideq_refl (conj ideq_sym (conj ideq_trans_dom ideq_nf))). Qed.
+
+Theorem C10_code_result_domain : forall k fs fs1,
+  has_recipients k = true -> recip_pre ideq k fs = Ok fs1 ->
+  forallb iri_dom (scan_order (scan_lists k fs1)) = true ->
+  recipients_m (IObj true k fs)
+  = Ok (iri_items (first_mentions ideq (scan_order (scan_lists k fs1))),
+        IObj true k (write_back (keep_first_lists ideq [] (scan_lists k fs1)) fs1)).
+Proof. exact recipients_m_refines_dom. Qed.
+
+Theorem C10_code_value_domain : forall k fs fs1 r fs',
+  has_recipients k = true -> recip_pre ideq k fs = Ok fs1 ->
+  forallb iri_dom (scan_order (scan_lists k fs1)) = true ->
+  recipients_m (IObj true k fs) = Ok (r, IObj true k fs') ->
+  addressing fs' = keep_first_lists ideq [] (addressing fs1) /\
+  (forall f, is_addr4 f = false -> getf f fs' = getf f fs1) /\
+  (forall f, is_addr5 f = false -> getf f fs' = getf f fs).
+Proof. exact recipients_m_addressing_dom. Qed.
+
+(* the returned list in the words of the property, for the code's comparison: nobody else and in order of
+   first mention, each distinct addressee exactly once, "distinct" = different normal form (scheme ignored) *)
+Theorem C10_code_meaning_domain : forall ks,
+  forallb iri_dom ks = true ->
+  subseq (first_mentions ideq ks) ks /\
+  (forall k, In k ks -> length (filter (ideq k) (first_mentions ideq ks)) = 1) /\
+  (forall a b, In a ks -> In b ks -> (ideq a b = true <-> nf false a = nf false b)).
+Proof. exact first_mentions_meaning_dom. Qed.
+
 (* ---- 6. why the hypothesis is there: with a symmetric, reflexive but NON-transitive comparison an index is
    collected twice and the second deletion runs past the end of the slice ---- *)
 Definition near (a b : bytes) : bool := (length a - length b <=? 1) && (length b - length a <=? 1).
@@ -208,6 +249,11 @@ Example C10_example_hypotheses :
   trans_on ideq (scan_order (scan_lists KIntransitive ex_fs)) = true /\
   recip_pre ideq KIntransitive ex_fs = Ok ex_fs.
 Proof. repeat split; vm_compute; reflexivity. Qed.
+(* ... and so does the domain hypothesis of the C10_code_*_domain theorems (six ids, three of them variants) *)
+Example C10_example_domain :
+  forallb iri_dom (scan_order (scan_lists KIntransitive ex_fs)) = true /\
+  length (scan_order (scan_lists KIntransitive ex_fs)) = 8.
+Proof. split; vm_compute; reflexivity. Qed.
 Example C10_example_result :
   recipients_m (IObj true KIntransitive ex_fs)
   = Ok (iri_items [B "https://example.com/actors/alice"; B "https://example.com/actors/bob";
@@ -220,3 +266,56 @@ Example C10_example_result :
            (F_CC, FItems (Some [Pub]));
            (F_Actor, FItem Ya)]).
 Proof. vm_compute. reflexivity. Qed.
+
+(* ---- generated-table tie (b26) ---- *)
+(* The scan order of the thirteen Recipients() methods ([scan_lists]: to, cc, bto, bcc, [actor], audience), which
+   lists are passed by address and hence written back ([write_back]), the Block clause of Activity.Recipients
+   and the field list of removeFromAudience are no longer tied to the source by the correspondence check alone:
+   Gen/RecipT.v is regenerated from the method bodies on every run (translator/recipt.go: every statement, every
+   argument of ItemCollectionDeduplication in order with its form  &x.F / &local / &ItemCollection{x.F}).
+   Model/RecipTab.v gives a table its meaning ([recipients_t], an interpreter over the same de-duplication) and
+   states the decidable condition [recip_table_ok].  A source change that swaps two lists, drops one, passes a
+   copy instead of the field or edits the Block clause breaks C10_recip_table. *)
+From AP.Model Require Import RecipTab RecipGen.
+From AP.Proofs Require Import RecipTabP.
+
+(* generic: for EVERY table set that satisfies the condition and every id comparison, the table's meaning is the
+   model the theorems above are about *)
+Theorem C10_recip_table_tie : forall T, recip_table_ok T = true ->
+  forall eqv x, recipients_t eqv T x = recipients eqv x.
+Proof. exact recip_table_tie'. Qed.
+
+(* diagnosis first: when the source moved, this is the obligation that fails, and Coq's error message shows the
+   struct type with the generated and the modelled argument list *)
+Theorem C10_recip_table_first_bad : first_bad_recip gen_recip_tables = None.
+Proof. vm_compute. reflexivity. Qed.
+
+Theorem C10_remove_fields : remove_fields_of (rt_remove gen_recip_tables) = Some model_remove_fields.
+Proof. vm_compute. reflexivity. Qed.
+
+(* the condition on the tables regenerated from the source on this run *)
+Theorem C10_recip_table : recip_table_ok gen_recip_tables = true.
+Proof. vm_compute. reflexivity. Qed.
+
+(* hence: Recipients() as the source says it now is the model's *)
+Theorem C10_recipients_gen : forall eqv x, recipients_gen eqv x = recipients eqv x.
+Proof. exact (C10_recip_table_tie gen_recip_tables C10_recip_table). Qed.
+
+(* non-vacuity: thirteen methods; the generated table run on the example value of section 8 *)
+Example C10_recipients_gen_example :
+  length (rt_methods gen_recip_tables) = 13 /\
+  recipients_gen ideq (IObj true KIntransitive ex_fs) = recipients_m (IObj true KIntransitive ex_fs) /\
+  exists r, recipients_gen ideq (IObj true KIntransitive ex_fs) = Ok r.
+Proof. split; [|split]; [vm_compute; reflexivity | vm_compute; reflexivity | eexists; vm_compute; reflexivity]. Qed.
+
+(* what the condition is for: the tables of a source in which Object.Recipients scans cc before to fail it for
+   exactly that struct type, and their meaning returns the recipients in another order *)
+Example C10_swapped_lists_rejected :
+  recip_table_ok recip_tables_swapped = false /\
+  option_map (fun p => fst (fst p)) (first_bad_recip recip_tables_swapped) = Some KObject /\
+  (exists v, recipients_t ideq recip_tables_swapped tg_addressed = Ok (iri_items [B "https://example.com/actors/bob"; B "https://example.com/actors/alice"], v)) /\
+  (exists v, recipients_m tg_addressed = Ok (iri_items [B "https://example.com/actors/alice"; B "https://example.com/actors/bob"], v)).
+Proof.
+  split; [vm_compute; reflexivity|]. split; [vm_compute; reflexivity|].
+  split; eexists; vm_compute; reflexivity.
+Qed.
